@@ -100,7 +100,12 @@ RU == [k |-> "U", v |-> NoBody]                   \* the standard is silent or a
 LitOrRej(s) == [k |-> "litorrej", v |-> Str(s)]   \* braces but no "$" at all: a constant with literal braces, or refused - nothing else
 
 (* ------------------- bare expressions (the ABNF) ------------------------ *)
-Catalogue == {rxUsers, rxAll, rxPath}                     \* regex extractors "<literal>(.+)"
+Catalogue == {rxUsers, rxAll, rxPath}
+(* an extractor must be a regular expression with exactly one capturing group; these are none: they can never denote a value *)
+rxNoGroup == <<117, 47, 46, 43>>                                                   \* "u/.+"
+rxTwoGroups == <<40, 46, 41, 40, 46, 43, 41>>                                     \* "(.)(.+)"
+rxBroken == <<40, 46, 43>>                                                      \* "(.+"
+BadCatalogue == {rxNoGroup, rxTwoGroups, rxBroken}                     \* regex extractors "<literal>(.+)"
 Node(k) == [k |-> k, loc |-> "", name |-> <<>>, hasRx |-> FALSE, rx |-> <<>>, ptr |-> <<>>]
 RefNode(k, loc, rest, isHeader) ==
     LET h == Find(rest, cHash)
@@ -112,6 +117,7 @@ RefNode(k, loc, rest, isHeader) ==
        ELSE IF h = 0 THEN [Node(k) EXCEPT !.loc = loc, !.name = name]
        ELSE IF StartsWith(ext, sRegex) /\ Drop(ext, Len(sRegex)) \in Catalogue
             THEN [Node(k) EXCEPT !.loc = loc, !.name = name, !.hasRx = TRUE, !.rx = Drop(ext, Len(sRegex))]
+       ELSE IF StartsWith(ext, sRegex) /\ Drop(ext, Len(sRegex)) \in BadCatalogue THEN Node("badrx")
        ELSE Node("U")                   \* "#" in a name: ABNF-valid, clashes with the extractor extension / pattern outside the catalogue
 BodyNode(k, rest) ==
     IF rest = <<>> THEN Node(k)
@@ -148,6 +154,7 @@ RxExtract(rx, s) ==
        ELSE LET i == CHOOSE m \in hits : \A o \in hits : m <= o IN Val(Str(Drop(s, i + Len(lit) - 1)))
 ApplyRx(n, r) == IF r.k # "val" \/ ~n.hasRx THEN r ELSE IF r.v.t # "str" THEN RU ELSE RxExtract(n.rx, r.v.s)
 PtrValue(doc, p) == IF doc.t = "none" THEN RU
+                    ELSE IF doc.t = "text" THEN RUnres                  \* a payload that is not JSON has no members
                     ELSE IF ~ValidPtr(p) THEN RBadPtr
                     ELSE LET r == Resolve(doc, p) IN IF r.t = "unres" THEN RUnres ELSE Val(r)
 EvalNode(n, x) ==
@@ -159,6 +166,7 @@ EvalNode(n, x) ==
       [] n.k = "resphdr" -> ApplyRx(n, Lookup(x.rheaders, n.name, TRUE))
       [] n.k = "reqbody" -> PtrValue(x.body, n.ptr)
       [] n.k = "respbody" -> PtrValue(x.rbody, n.ptr)
+      [] n.k = "badrx" -> RBadPtr                       \* invalid extractor: refused or nothing, never a value
       [] OTHER -> RU
 
 (* embedded form: text and {expression} groups; braces balanced, not nested, not empty.  A "}" right after the group that
@@ -267,17 +275,19 @@ PtrsOf(n) == IF n = 0 THEN {<<>>} ELSE LET shorter == PtrsOf(n - 1) IN shorter \
 Ptrs == PtrsOf(PtrLen) \cup {<<97>>, <<97, 47, 98>>}                     \* plus two pointers that do not start with "/"
 PtrExprs == {h \o sBody \o <<cHash>> \o p : h \in {sRequest, sResponse}, p \in Ptrs}
 Rx(e, rx) == e \o sRegex \o rx
+G(e) == <<cLB>> \o e \o <<cRB>>
 BareWF == {sUrl, sMethod, sStatus, sRequest \o sPath \o nId, sRequest \o sQuery \o nQ, sRequest \o sQuery \o nDotted,
            sRequest \o sQuery \o nMissing, sRequest \o sHeader \o hXId, sRequest \o sHeader \o hxid, sRequest \o sBody,
            sResponse \o sBody, sResponse \o sHeader \o hLocation, sResponse \o sHeader \o hxid, sResponse \o sHeader \o nMissing,
            Rx(sResponse \o sHeader \o hLocation, rxUsers), Rx(sResponse \o sHeader \o hLocation, rxAll),
-           Rx(sRequest \o sPath \o nId, rxAll), Rx(sRequest \o sQuery \o nQ, rxUsers)}
+           Rx(sRequest \o sPath \o nId, rxAll), Rx(sRequest \o sQuery \o nQ, rxUsers),
+           Rx(sResponse \o sHeader \o hLocation, rxNoGroup), Rx(sResponse \o sHeader \o hLocation, rxTwoGroups),
+           Rx(sResponse \o sHeader \o hLocation, rxBroken), G(Rx(sResponse \o sHeader \o hLocation, rxNoGroup))}
 RespId == sResponse \o sBody \o <<cHash, cSlash>> \o nId                                    \* $response.body#/id
 RespAB == sResponse \o sBody \o <<cHash, cSlash, 97, cSlash, 48, cSlash, 98>>               \* $response.body#/a/0/b
 RespZZ == sResponse \o sBody \o <<cHash, cSlash>> \o nMissing                               \* $response.body#/zz
 Inner == {sUrl, sStatus, sRequest \o sPath \o nId, RespId, RespAB, RespZZ, Rx(sResponse \o sHeader \o hLocation, rxUsers),
           bogus, sRequest \o sPath, sResponse \o sBody \o <<cHash, 97>>, sResponse \o sBody \o <<cHash, cSlash, 97>>}
-G(e) == <<cLB>> \o e \o <<cRB>>
 Templates == {G(e) : e \in Inner} \cup {tAb \o G(e) : e \in Inner} \cup {G(e) \o tAb : e \in Inner}
              \cup {tAb \o G(e) \o <<45>> \o G(f) : e \in Inner, f \in {sStatus, RespId}}
              \cup {G(e) \o G(f) : e \in Inner, f \in {sStatus, RespId}}
@@ -306,28 +316,42 @@ Shapes(l, m) == {l, Obj(<<<<97>>>>, <<l>>), Arr(<<l, m>>),
                  Arr(<<Obj(<<<<97>>>>, <<Obj(<<kSku>>, <<l>>)>>)>>)}                         \* [{"a": {"sku": l}}]
 Trees == UNION {Shapes(l, m) : l \in Leaves, m \in Leaves}
 
+(* ------------------------- link well-formedness ------------------------- *)
+(* a link names its target by operationId or operationRef and its parameters either as "{in}.{name}" or just "{name}";
+   a bare name is placed where the TARGET declares it.  A link whose target does not exist, or whose bare parameter name
+   the target does not declare, cannot be followed: it must be refused when the links are read.  An explicit location with a
+   name the target does not declare: the standard is silent *)
+LinkShapes == [target : {"id", "ref", "unknown-id", "unknown-ref"}, pname : {"id", "path.id", "nope", "query.nope"}]
+LinkVerdict(l) == IF l.target \in {"unknown-id", "unknown-ref"} \/ l.pname = "nope" THEN "rejected"
+                  ELSE IF l.pname = "query.nope" THEN "U" ELSE "accepted"
+NoLink == [target |-> "", pname |-> ""]
+
 (* ------------------------------ the system ------------------------------ *)
-VARIABLES fam, e, tree, xid, key, keys, out
-vars == <<fam, e, tree, xid, key, keys, out>>
+VARIABLES fam, e, tree, lnk, xid, key, keys, out
+vars == <<fam, e, tree, lnk, xid, key, keys, out>>
 Pending == [k |-> "pending"]
 Init == /\ out = Pending
-        /\ \/ fam = "expr" /\ e \in Family /\ tree = Null /\ xid \in {"X1", "X2"} /\ key = "" /\ keys = {}
-           \/ fam = "tree" /\ e = <<>> /\ tree \in Trees /\ xid \in {"X1", "X2"} /\ key = "" /\ keys = {}
-           \/ fam = "status" /\ e = <<>> /\ tree = Null /\ xid = "" /\ keys \in KeySets /\ key \in keys
+        /\ \/ fam = "expr" /\ e \in Family /\ tree = Null /\ lnk = NoLink /\ xid \in {"X1", "X2"} /\ key = "" /\ keys = {}
+           \/ fam = "tree" /\ e = <<>> /\ tree \in Trees /\ lnk = NoLink /\ xid \in {"X1", "X2"} /\ key = "" /\ keys = {}
+           \/ fam = "link" /\ e = <<>> /\ tree = Null /\ lnk \in LinkShapes /\ xid = "" /\ key = "" /\ keys = {}
+           \/ fam = "status" /\ e = <<>> /\ tree = Null /\ lnk = NoLink /\ xid = "" /\ keys \in KeySets /\ key \in keys
 (* following a link evaluates its expression on the source exchange *)
-Evaluate == /\ fam = "expr" /\ out = Pending /\ out' = Eval(e, X(xid)) /\ UNCHANGED <<fam, e, tree, xid, key, keys>>
+Evaluate == /\ fam = "expr" /\ out = Pending /\ out' = Eval(e, X(xid)) /\ UNCHANGED <<fam, e, tree, lnk, xid, key, keys>>
 (* ... and its requestBody / a structured parameter value as a whole tree *)
-EvaluateTree == /\ fam = "tree" /\ out = Pending /\ out' = TreeResult(tree, X(xid)) /\ UNCHANGED <<fam, e, tree, xid, key, keys>>
+EvaluateTree == /\ fam = "tree" /\ out = Pending /\ out' = TreeResult(tree, X(xid)) /\ UNCHANGED <<fam, e, tree, lnk, xid, key, keys>>
 (* routing a response: the statuses from which the link under `key` may be followed *)
 MatchStatuses == /\ fam = "status" /\ out = Pending
                  /\ out' = [k |-> "statuses", v |-> {s \in Statuses : LinkMatches(key, s, keys)}]
-                 /\ UNCHANGED <<fam, e, tree, xid, key, keys>>
-Next == Evaluate \/ EvaluateTree \/ MatchStatuses
+                 /\ UNCHANGED <<fam, e, tree, lnk, xid, key, keys>>
+(* reading the links of the document when the state machine is built *)
+ReadLink == /\ fam = "link" /\ out = Pending /\ out' = [k |-> "link", v |-> LinkVerdict(lnk)]
+            /\ UNCHANGED <<fam, e, tree, lnk, xid, key, keys>>
+Next == Evaluate \/ EvaluateTree \/ ReadLink \/ MatchStatuses
 Spec == Init /\ [][Next]_vars
 
 (* --------------------------- design invariants -------------------------- *)
-Kinds == {"pending", "statuses", "val", "unres", "malformed", "badptr", "litorrej", "U"}
-TypeOK == out.k \in Kinds /\ (fam = "status" => out.k \in {"pending", "statuses"}) /\ (fam = "expr" => out.k # "statuses")
+Kinds == {"pending", "statuses", "link", "val", "unres", "malformed", "badptr", "litorrej", "U"}
+TypeOK == out.k \in Kinds /\ (fam = "status" => out.k \in {"pending", "statuses"}) /\ (fam = "expr" => out.k \notin {"statuses", "link"})
           /\ (fam = "tree" => out.k \in {"pending", "val", "unres"})
 (* a tree denotes nothing iff one of its strings does; otherwise it keeps its shape *)
 RECURSIVE Strings(_)
@@ -357,6 +381,7 @@ PointerLaws == /\ Resolve(X1.rbody, <<>>) = X1.rbody
 ASSUME PrintT(<<"EXCHANGE", ToJson([X1 |-> X1, X2 |-> X2])>>)
 Export == IF out = Pending THEN TRUE
           ELSE IF fam = "expr" THEN PrintT(<<"CASE", ToJson([e |-> e, x |-> xid, exp |-> out])>>)
+          ELSE IF fam = "link" THEN PrintT(<<"LINK", ToJson([link |-> lnk, exp |-> out.v])>>)
           ELSE IF fam = "tree" THEN PrintT(<<"TREE", ToJson([tree |-> tree, x |-> xid, exp |-> out])>>)
           ELSE PrintT(<<"STATUS", ToJson([key |-> key, keys |-> keys, matched |-> out.v])>>)
 =============================================================================
